@@ -38,7 +38,7 @@ class C05(C.ProgramDiff):
     def decode(self, src):
         case = C.ProgramDiff.decode(self, src)
         k = src.n(8)
-        if k in (4, 5):
+        if k in (3, 4, 5):
             case = self.decode_shapes(src, case, k)
             return case
         if k >= 6:
@@ -95,6 +95,26 @@ class C05(C.ProgramDiff):
         A = lambda n: ('a', n)      # noqa: E731
         unary = sorted({h[1] for h, _ in clauses if h[0] == 'f' and len(h[2]) == 1})
         gen1 = (lambda v: call(f(src.pick(unary), v))) if unary and src.n(2) else (lambda v: (';', eq(v, A('a')), eq(v, A('b'))))
+        if k == 3:
+            # a body-only variable whose FIRST use is a unification inside a branch that is not always taken, and a later use
+            # on every path: an alternative that does not bind it must see it unbound
+            X, Z, R = V(5), V(6), V(1)
+            first = src.pick([
+                (';', eq(X, A('a')), ('true',)),
+                (';', ('true',), eq(X, A('a'))),
+                (';', ('->', eq(V(0), A('go')), eq(X, A('one'))), ('true',)),
+                (',', gen1(Z), (';', ('->', eq(Z, A('a')), eq(X, A('one'))), ('true',))),
+                (';', (',', eq(X, A('a')), ('fail',)), eq(Z, A('b'))),
+                (';', ('not', eq(X, A('a'))), eq(X, A('b'))),
+                (';', (',', eq(X, f('f', Z)), eq(Z, A('a'))), eq(Z, A('c')))])
+            last = src.pick([eq(R, f('r', X, Z)), eq(R, f('f', X)), (',', eq(R, X), ('true',)), (',', eq(R, f('r', Z, X)), ('cut',))])
+            head = f('fu', V(0), R)
+            clauses += [(head, (',', first, last)), (f('fu', A('z'), A('last')), ('true',))]
+            queries = [f('fu', A('go'), gen.QVARS[1]), f('fu', gen.QVARS[0], gen.QVARS[1]), f('fu', A('stay'), gen.QVARS[1])]
+            case['text'] = gen.program_text(clauses, src)
+            case['clauses'] = clauses
+            case['queries'] = queries
+            return case
         if k == 4:
             # a branch that ends in a cut, then a row of 2-4 two-way choices in the same body (the continuation of the
             # first construct is needed once per branch), and a later clause
